@@ -107,6 +107,10 @@ def stress_inputs(tier):
     # operations whose only fragments are unpacked ones (on unions, with inline fragments, on an interface of the object): no mixin fragment anywhere
     s.append(dict(label="unpacked_fragments_only", strategy="client", schema=corpus.SCHEMA_K, queries=UNPACKED_ONLY, options={}))
     s.append(dict(label="unpacked_fragments_only_extract", strategy="client", schema=corpus.SCHEMA_K, queries=UNPACKED_ONLY, options={"plugins": [PLUGINS["extract"]]}))
+    # plugins enabled by package / module name (the second documented form): all plugins the module exposes, in a deterministic order
+    s.append(dict(label="plugins_by_package_name", strategy="client", schema=SCHEMA_MANY, queries=QUERIES_MANY, options={"scalars": SCALARS, "plugins": ["ariadne_codegen.contrib"]}))
+    s.append(dict(label="plugins_by_module_and_class", strategy="client", schema=corpus.SCHEMA_K, queries=FAN_QUERIES,
+                  options={"plugins": ["ariadne_codegen.contrib.extract_operations", PLUGINS["shorter"], "ariadne_codegen.contrib.no_reimports"]}))
     enum_frag_schema = "\n".join(f"enum En{i} {{ A B }}" for i in range(6)) + "\ntype Item { id: ID! " + " ".join(f"e{i}: En{i}" for i in range(6)) + " }\ntype Query { item: Item items: [Item!]! }\n"
     enum_frag_queries = "query GetItem { item { ...Fa ...Fb ...Fc } items { ...Fd ...Fe id e5 } }\n" + "\n".join(f"fragment F{c} on Item {{ e{i} }}" for i, c in enumerate("abcde")) + "\n"
     s.append(dict(label="enums_in_mixin_fragments_pruned", strategy="client", schema=enum_frag_schema, queries=enum_frag_queries, options={"include_all_enums": False, "include_all_inputs": False}))
